@@ -119,6 +119,9 @@ func (cl *ClientLimiter) gc() {
 		refilled := value.l.TokensAt(now) >= float64(cl.opts.Burst)
 		value.m.Unlock()
 		if lastSeen.Before(ddl) && refilled {
+			if verifhook.On {
+				verifhook.Gate("lim.gc", cl, key)
+			}
 			cl.m.Delete(key)
 		}
 		return true
